@@ -12,6 +12,9 @@ SCR=$(mktemp -d /tmp/seedmatrix.XXXXXX)
 missed=0
 for n in "$@"; do
   id=$(echo "$n" | cut -c1-3)
+  # a change kept under the property it was written against may be one that another property's check decides
+  cb=$(python3 -c "import json,sys; print(json.load(open(sys.argv[1])).get('caught_by',''))" "$VR/seeded/$n/meta.json" 2>/dev/null)
+  [ -n "$cb" ] && id=$cb
   git -C "$WT" apply "$VR/seeded/$n/patch.diff" || { echo "$n: patch does not apply"; missed=$((missed+1)); continue; }
   VERIF_REPO="$WT" VERIF_OUT="$SCR/out" "$VR/bin/vcheck" run "$id" quick > "$SCR/$n.txt" 2>&1; rc=$?
   git -C "$WT" checkout -- .
